@@ -194,11 +194,9 @@ func c11NewExec(sc *c11Scenario, script func(call int, p *c11Pod) bool) *c11Exec
 
 func (e *c11Exec) Evict(pod *corev1.Pod, node *corev1.Node, releaseReason string, message string) bool {
 	p := e.byUID[pod.UID]
+	// the real Evictor answers true without calling the API for a pod it already evicted
 	ok := true
-	if p != nil && e.sc.pending[p.idx] {
-		// the real Evictor answers true without calling the API for a pod it already evicted
-		ok = true
-	} else {
+	if p == nil || !e.sc.pending[p.idx] {
 		ok = e.script(e.calls, p)
 	}
 	e.calls++
@@ -223,7 +221,7 @@ func (e *c11Exec) IsPodEvicted(pod *corev1.Pod) bool {
 // ---------------------------------------------------------------------------------------------
 // building the real input from the scenario
 
-func c11BuildPodObject(p *c11Pod, r *kit.Rand) *corev1.Pod {
+func c11BuildPodObject(p *c11Pod) *corev1.Pod {
 	labels := map[string]string{}
 	if p.be {
 		labels[apiext.LabelPodQoS] = string(apiext.QoSBE)
@@ -553,7 +551,7 @@ func c11GenPods(r *kit.Rand, n int) []*c11Pod {
 				p.optOut[f] = true
 			}
 		}
-		p.pod = c11BuildPodObject(p, r)
+		p.pod = c11BuildPodObject(p)
 		pods[i] = p
 	}
 	return pods
@@ -767,7 +765,7 @@ func c11CountOutcome(c *kit.Case, out *c11Outcome) {
 	c.Count("already_evicted_counted", out.pendingSeen)
 	c.Count("tasks_target_met", out.metTasks)
 	c.Count("tasks_target_unmet", out.unmetTasks)
-	c.Count("converse_misses_stopped_with_useful_candidate_untried", out.stoppedEarly)
+	c.Count("converse_misses_loop_stopped_with_useful_candidate_untried", out.stoppedEarly)
 	c.Count("oracle_attempt_checks", out.attempts)
 }
 
@@ -776,7 +774,7 @@ func c11CountOutcome(c *kit.Case, out *c11Outcome) {
 
 func TestVerifC11Tasks(t *testing.T) {
 	kit.Run(t, kit.Config{Property: "C11", Unit: "util-tasks", Quick: 30000, Thorough: 600000,
-		Rule: "2-15 pods (class, QoS, priority at class boundaries, eviction-priority, sub-priority label, zero usage / no sample / zero request), 1-3 tasks of one plugin in its published feature order with the strategies' filters, comparators, release-function shapes and targets from 1 to more than everything; executor script none / all fail / first only / every k-th / random p%, 0-100% of pods already evicted, evict-by-API or kill mode; distinct = (plugin, features, n class, fault script kind, already-evicted class, attempts class, met/unmet); non-trivial = at least one attempt and (a failure, an already-evicted pod counted, or a candidate left untouched because the target was met)"},
+		Rule: "2-15 pods (class, QoS, priority at class boundaries, eviction-priority, sub-priority label, zero usage / no sample / zero request), 1-3 tasks of one plugin in its published feature order with the strategies' filters, comparators, release-function shapes and targets from 1 to more than everything; executor script none / all fail / first only / every k-th / random p%, 0-100% of pods already evicted, evict-by-API or kill mode; distinct = (plugin, features, n class, fault script kind, already-evicted class, attempts class, met/unmet); non-trivial = at least one attempt and (a failure, an already-evicted pod counted, or a task whose target was met)"},
 		func(c *kit.Case) {
 			r := c.R
 			n := r.Range(2, 15)
@@ -799,27 +797,21 @@ func TestVerifC11Tasks(t *testing.T) {
 				desc, script = fmt.Sprintf("random-%d%%", pct), func(int, *c11Pod) bool { return !fr.Pct(pct) }
 			}
 			c11LogScenario(c, sc)
-			ex, out, returned := c11Run(sc, script)
+			_, out, returned := c11Run(sc, script)
 			c.Op("script=%s calls=%v returned={%s}", desc, out.trace, c11ReturnedString(returned))
 			c11CountOutcome(c, out)
 			c.Count("fault_script_"+[]string{"none", "all", "first_only", "every_kth", "random"}[kind], 1)
 			feats := ""
-			untouched := false
 			for _, t := range sc.tasks {
 				feats += t.feature + ","
 				c.Count("task_"+t.feature, 1)
-				if len(t.list) > 0 && ex.calls > 0 {
-					untouched = true
-				}
 			}
 			c.Count("tasks_total", len(sc.tasks))
-			if out.attempts > 0 && (out.failures > 0 || out.pendingSeen > 0 || (untouched && out.metTasks > 0)) {
+			c.Count(fmt.Sprintf("cases_with_%d_tasks", len(sc.tasks)), 1)
+			if out.attempts > 0 && (out.failures > 0 || out.pendingSeen > 0 || out.metTasks > 0) {
 				c.NonTrivial()
 			}
-			pc := 0
-			for range sc.pending {
-				pc++
-			}
+			pc := len(sc.pending)
 			c.Seen(sc.plugin, feats, n/4, kind, (pc+2)/3, (out.attempts+1)/2, out.metTasks, out.unmetTasks, out.failures > 0)
 			if c.K < 2 {
 				c.Sample(map[string]any{"tasks": fmt.Sprint(sc.tasks), "script": desc, "calls": out.trace, "returned": c11ReturnedString(returned)})
@@ -832,11 +824,11 @@ func TestVerifC11Tasks(t *testing.T) {
 // (b) complete fault tree per scenario with <= 6 pods
 
 func TestVerifC11FaultTree(t *testing.T) {
-	kit.Run(t, kit.Config{Property: "C11", Unit: "util-fault-tree", Quick: 4000, Thorough: 80000,
+	kit.Run(t, kit.Config{Property: "C11", Unit: "util-fault-tree", Quick: 20000, Thorough: 300000,
 		Rule: "scenario generated as in util-tasks but with 1-6 pods and pods x tasks <= 12; for that scenario EVERY fail/succeed script of the individual Evict calls is executed (the binary fault tree over the calls actually made is enumerated completely by backtracking; one inner evaluation per leaf); scenarios themselves are sampled; distinct = (plugin, features, n, leaves class, max attempts); non-trivial = tree with at least 4 leaves"},
 		func(c *kit.Case) {
 			r := c.R
-			n := r.Range(1, 6)
+			n := kit.Pick(r, []int{1, 2, 3, 4, 4, 5, 5, 6, 6, 6})
 			maxTasks := 3
 			if n > 4 {
 				maxTasks = 2
@@ -864,9 +856,6 @@ func TestVerifC11FaultTree(t *testing.T) {
 				// next leaf: flip the last call that succeeded by default or by prefix and was not yet flipped
 				bits := ex.bits
 				i := len(bits) - 1
-				for i >= 0 && !bits[i] {
-					i--
-				}
 				// calls answered for already-evicted pods are not scriptable (always true) - they are never
 				// reached on the unchanged tree; skip them when backtracking
 				for i >= 0 && (!bits[i] || c11ForcedCall(sc, ex, i)) {
@@ -965,7 +954,7 @@ func TestVerifC11SmallExhaustive(t *testing.T) {
 				case 2:
 					sc.pending[i] = true
 				}
-				p.pod = c11BuildPodObject(p, nil)
+				p.pod = c11BuildPodObject(p)
 				sc.pods = append(sc.pods, p)
 				tk.list = append(tk.list, p)
 			}
